@@ -31,6 +31,33 @@ type trace struct {
 	mu    sync.Mutex
 	t0    time.Time
 	calls []*Call
+
+	stuck chan struct{} // closed at the end of the case: releases the logs that ignore their context
+	fin   chan struct{}
+	once  sync.Once
+}
+
+// start is called at the top of the bubble's body; ctx is the bubble's root context (the watchdog
+// cancels it), so that even a case that never ends by itself lets go of the stuck logs.
+func (tr *trace) start(ctx context.Context) {
+	tr.t0 = time.Now()
+	tr.stuck = make(chan struct{})
+	tr.fin = make(chan struct{})
+	go func() {
+		select {
+		case <-ctx.Done():
+			tr.finish()
+		case <-tr.fin:
+		}
+	}()
+}
+
+// finish releases the stuck logs (idempotent).
+func (tr *trace) finish() {
+	tr.once.Do(func() {
+		close(tr.stuck)
+		close(tr.fin)
+	})
 }
 
 func (tr *trace) now() time.Duration { return time.Since(tr.t0) }
@@ -79,6 +106,11 @@ func serve(ctx context.Context, tr *trace, c *Call, b Beh, sub, log int) (*ct.Si
 		<-ctx.Done()
 		tr.end(c, "ctx")
 		return nil, ctx.Err()
+	case behStuck:
+		// a request that does not honour its context: it only comes back when the case is over
+		<-tr.stuck
+		tr.end(c, "ctx")
+		return nil, fmt.Errorf("log %d: %w", log, errScripted)
 	case behErr:
 		if !vt.Sleep(ctx, ms(b.DelayMs)) {
 			tr.end(c, "ctx")
